@@ -88,13 +88,15 @@ impl StdfsEntry {
     /// * Filesystem properties are cached during load
     pub(crate) fn from<T: AsRef<Path>>(path: T) -> RvResult<Self> {
         let path = Stdfs::abs(path)?;
-        if !Stdfs::exists(&path) {
-            return Err(PathError::does_not_exist(&path).into());
-        }
+
+        // A link exists whether or not its target does
+        let mut meta = match fs::symlink_metadata(&path) {
+            Ok(x) => x,
+            Err(_) => return Err(PathError::does_not_exist(&path).into()),
+        };
         let mut link = false;
         let mut alt = PathBuf::new();
         let mut rel = PathBuf::new();
-        let mut meta = fs::symlink_metadata(&path)?;
 
         // Load link information for links
         if meta.file_type().is_symlink() {
@@ -107,8 +109,10 @@ impl StdfsEntry {
             // Get the target path relative to the link path if possible
             rel = alt.relative(path.dir()?)?;
 
-            // Switch to the link's source metadata
-            meta = fs::metadata(&path)?;
+            // Switch to the link's source metadata when there is a source
+            if let Ok(x) = fs::metadata(&path) {
+                meta = x;
+            }
         }
 
         Ok(StdfsEntry {
